@@ -120,6 +120,46 @@ class SymToken:
         self.tag = tag_
 
 
+def closure_names(I, f):
+    """free variables of a nested function that are neither module-level names nor builtins: (names, nonlocal-declared names).
+    The contracts find the closure variables they talk about by ROLE (the shared list, the counter declared nonlocal, self), not by their spelling:
+    renaming a local is not a change of behaviour"""
+    import ast
+    import builtins
+    fn = f.node
+    a = fn.args
+    params = {x.arg for x in a.posonlyargs + a.args + a.kwonlyargs} | ({a.vararg.arg} if a.vararg else set()) | ({a.kwarg.arg} if a.kwarg else set())
+    nonlocals, stored, loaded = set(), set(), set()
+    for n in ast.walk(fn):
+        if isinstance(n, ast.Nonlocal):
+            nonlocals.update(n.names)
+        elif isinstance(n, ast.Name):
+            (stored if isinstance(n.ctx, (ast.Store, ast.Del)) else loaded).add(n.id)
+        elif isinstance(n, (ast.FunctionDef, ast.Lambda)) and n is not fn:
+            if isinstance(n, ast.FunctionDef):
+                stored.add(n.name)
+    free = (loaded - params - (stored - nonlocals)) | nonlocals
+    out = set()
+    for name in free:
+        if hasattr(builtins, name):
+            continue
+        try:
+            f.module.env.lookup(name)
+            continue
+        except KeyError:
+            pass
+        out.add(name)
+    out.discard(fn.name)
+    return out, nonlocals
+
+
+def the_one(names, what, where):
+    names = sorted(names)
+    if len(names) != 1:
+        raise CheckerError(f'{where}: expected one closure variable for {what}, found {names}')
+    return names[0]
+
+
 class _Method:
     def __init__(self, fn):
         self.fn = fn
@@ -252,8 +292,9 @@ class ResolveRec(Contract):
     def closure_env(self, I, f):
         m = I.load_module('depccg.printer.conll')
         env = Env(m.env)
-        env.set('rec', f)
+        env.set(f.node.name, f)
         self._env = env
+        self._list = the_one(closure_names(I, f)[0], 'the shared list of heads', self.name)
         return env
 
     def cases(self, I):
@@ -261,7 +302,7 @@ class ResolveRec(Contract):
             t = z3.Const('node', T)
             arr, n = z3.Const('results0', z3.ArraySort(I_, I_)), z3.Int('len0')
             lst = SymIntList(arr, n)
-            self._env.set('results', lst)
+            self._env.set(self._list, lst)
             self._pre = (arr, n, t, lst)
             unfold_dep(I, t)
             return [SymTree(t)], {}, [n >= 0], None
@@ -276,12 +317,13 @@ class ResolveRec(Contract):
         if len(args) != 1 or not isinstance(args[0], SymTree):
             raise CheckerError('rec called with something that is not a tree view')
         t = args[0].e
-        lst = f.env.lookup('results')
+        name = the_one(closure_names(I, f)[0], 'the shared list of heads', self.name)
+        lst = f.env.lookup(name)
         if isinstance(lst, list):
             if lst:
                 raise CheckerError('rec called with a non-empty concrete list')
             lst = SymIntList(z3.K(I_, z3.IntVal(0)), z3.IntVal(0))
-            f.env.set('results', lst)
+            f.env.set(name, lst)
         arr0, n0 = lst.arr, lst.n
         arr1 = I.fresh('results', z3.ArraySort(I_, I_))
         ret = I.fresh('head', I_)
@@ -571,8 +613,9 @@ class XmlRec(Contract):
     def closure_env(self, I, f):
         m = I.load_module('depccg.printer.xml')
         env = Env(m.env)
-        env.set('rec', f)
+        env.set(f.node.name, f)
         self._env = env
+        self._queue = the_one(closure_names(I, f)[0], 'the token queue', self.name)
         return env
 
     @staticmethod
@@ -587,7 +630,7 @@ class XmlRec(Contract):
             k0, n = z3.Int('k0'), z3.Int('n_tokens')
             q = SymTokenQueue(None, k0, n)
             parent = SymElem('parent')
-            self._env.set('tokens', q)
+            self._env.set(self._queue, q)
             self._pre = (t, k0, n, q, parent)
             return [SymTree(t), parent], {}, [self.pre(k0, n, t)], None
         yield Case('any-node', build)
@@ -607,7 +650,7 @@ class XmlRec(Contract):
         if len(args) != 2 or not isinstance(args[0], SymTree) or not isinstance(args[1], SymElem):
             raise CheckerError('rec(node, parent) called with unexpected arguments')
         t, parent = args[0].e, args[1]
-        q = f.env.lookup('tokens')
+        q = f.env.lookup(the_one(closure_names(I, f)[0], 'the token queue', self.name))
         if not isinstance(q, SymTokenQueue):
             raise CheckerError('rec called while `tokens` is not the token queue')
         unfold_leaf_tag(I, getattr(self, '_pre', (None,))[0]) if I.target_contract is self and getattr(self, '_pre', None) else None
@@ -851,14 +894,23 @@ def traverse_post(*a):
     return z3.And([g for _, g in traverse_clauses(*a)])
 
 
+def jigg_roles(I, f):
+    """closure variables of traverse by role: the word counter (the one declared nonlocal), self, and the <ccg> element the spans are appended to (the remaining one)"""
+    names, nonlocals = closure_names(I, f)
+    counter = the_one(nonlocals, 'the word counter (nonlocal)', 'traverse')
+    element = the_one(names - nonlocals - {'self'}, 'the <ccg> element', 'traverse')
+    return dict(counter=counter, element=element)
+
+
 class JiggTraverse(Contract):
     rel, qualname = JREL, '_ConvertToJiggXML.process.traverse'
 
     def closure_env(self, I, f):
         m = I.load_module('depccg.printer.jigg_xml')
         env = Env(m.env)
-        env.set('traverse', f)
+        env.set(f.node.name, f)
         self._env = env
+        self._roles = jigg_roles(I, f)
         return env
 
     def _state(self, I):
@@ -878,8 +930,8 @@ class JiggTraverse(Contract):
             obj, res, sid, p0, c0, m0 = self._state(I)
             env = self._env
             env.set('self', obj)
-            env.set('res', res)
-            env.set('counter', Z(c0))
+            env.set(self._roles['element'], res)
+            env.set(self._roles['counter'], Z(c0))
             env.set('etree', I.modules['lxml.etree'])
             self._pre = (t, obj, res, p0, c0, m0, res.arr)
             unfold_span_rec(I, t)
@@ -895,7 +947,7 @@ class JiggTraverse(Contract):
         if ids is None:
             return z3.BoolVal(False)
         arr1, side = res.final_arr(I)
-        counter1 = I.ex(self._env.lookup('counter'))
+        counter1 = I.ex(self._env.lookup(self._roles['counter']))
         return [('attribute-shapes', z3.And(side, ids[0] == _JG['sid']))] + \
             traverse_clauses(I, t, p0, c0, m0, arr0, arr1, res.n, I.ex(obj.attrs['_spid']), counter1, (ids[1], I.ex(result[1])))
 
@@ -906,15 +958,16 @@ class JiggTraverse(Contract):
             raise CheckerError('traverse called with something that is not a tree view')
         t = args[0].e
         env = f.env
-        obj, res = env.lookup('self'), env.lookup('res')
+        roles = jigg_roles(I, f)
+        obj, res = env.lookup('self'), env.lookup(roles['element'])
         if not isinstance(res, SymSpanList):
-            raise CheckerError('traverse called while `res` is not the span list')
-        p0, c0, m0, arr0 = I.ex(obj.attrs['_spid']), I.ex(env.lookup('counter')), res.n, res.arr
+            raise CheckerError('traverse called while the <ccg> element is not the span list')
+        p0, c0, m0, arr0 = I.ex(obj.attrs['_spid']), I.ex(env.lookup(roles['counter'])), res.n, res.arr
         arr1 = I.fresh('spans', SPARR)
         idn, start = I.fresh('span_id', I_), I.fresh('span_start', I_)
         res.arr, res.n = arr1, m0 + nnodes(t)
         obj.attrs['_spid'] = Z(p0 + nnodes(t))
-        env.set('counter', Z(c0 + nleaves(t)))
+        env.set(roles['counter'], Z(c0 + nleaves(t)))
         I.ctx.assume(traverse_post(I, t, p0, c0, m0, arr0, arr1, res.n, p0 + nnodes(t), c0 + nleaves(t), (idn, start)))
         return (FString(['s', SymIntStr(Z(_JG['sid'])), '_sp', SymIntStr(Z(idn))]), Z(start))
 
@@ -1081,7 +1134,9 @@ def jigg_lemmas(I, prop):
 
 
 def jigg_call_site(I, prop):
-    """to_jigg_xml: one converter per sentence, created inside the sentence loop and outside the n-best loop, and every tree of the sentence goes through converter.process"""
+    """to_jigg_xml: one converter per sentence (the call _ConvertToJiggXML(...) sits directly in the sentence loop, not in a loop nested in it, and is the only
+    assignment of its variable), and every .process(...) call on it happens in a loop nested in the sentence loop.  Stated over the loop nesting only:
+    local names, unpacking style and the statements around the calls are free."""
     import ast
     from vc.pyvc import parse_source
     tree = parse_source(JREL)
@@ -1089,23 +1144,35 @@ def jigg_call_site(I, prop):
     ok, why = False, 'to_jigg_xml not found'
     if fn:
         fn = fn[0]
-        outer = [n for n in fn.body if isinstance(n, ast.For)]
-        why = 'no sentence loop'
-        if len(outer) == 1:
-            o = outer[0]
-            assigns = [n for n in ast.walk(fn) if isinstance(n, ast.Assign) and any(isinstance(t, ast.Name) and t.id == 'converter' for t in n.targets)]
-            inner = [n for n in o.body if isinstance(n, ast.For) and ast.unparse(n.iter) == 'parsed']
-            direct = [n for n in o.body if n in assigns]
-            why = 'converter is not created exactly once, directly in the sentence loop'
-            if len(assigns) == 1 and len(direct) == 1 and isinstance(assigns[0].value, ast.Call) and ast.unparse(assigns[0].value.func) == '_ConvertToJiggXML' and inner:
-                why = 'the n-best loop does not append converter.process(tree, score) for every tree'
-                body = inner[-1].body
-                calls = [n for n in ast.walk(inner[-1]) if isinstance(n, ast.Call) and ast.unparse(n.func) == 'converter.process']
-                ok = (o.body.index(direct[0]) < o.body.index(inner[-1]) and len(body) == 1 and len(calls) == 1 and isinstance(body[0], ast.Expr)
-                      and ast.unparse(body[0].value.func).endswith('.append') and body[0].value.args and body[0].value.args[0] is calls[0]
-                      and isinstance(inner[-1].target, ast.Tuple) and ast.unparse(calls[0].args[0]) == inner[-1].target.elts[0].id)
-                if ok:
-                    why = 'one converter per sentence; every (tree, score) of the n-best list is appended through converter.process'
+        parents = {}
+        for n in ast.walk(fn):
+            for c in ast.iter_child_nodes(n):
+                parents[id(c)] = n
+
+        def loops_around(n):
+            out = []
+            while id(n) in parents:
+                n = parents[id(n)]
+                if isinstance(n, (ast.For, ast.While)):
+                    out.append(n)
+            return out            # innermost first
+        ctor = [n for n in ast.walk(fn) if isinstance(n, ast.Call) and ast.unparse(n.func) == '_ConvertToJiggXML']
+        why = 'the converter is not created by exactly one call _ConvertToJiggXML(...)'
+        if len(ctor) == 1:
+            asg = parents.get(id(ctor[0]))
+            why = 'the converter is not bound to a plain variable'
+            if isinstance(asg, ast.Assign) and len(asg.targets) == 1 and isinstance(asg.targets[0], ast.Name):
+                name = asg.targets[0].id
+                around = loops_around(asg)
+                others = [n for n in ast.walk(fn) if isinstance(n, ast.Name) and n.id == name and isinstance(n.ctx, ast.Store) and n is not asg.targets[0]]
+                calls = [n for n in ast.walk(fn) if isinstance(n, ast.Call) and isinstance(n.func, ast.Attribute) and n.func.attr == 'process'
+                         and isinstance(n.func.value, ast.Name) and n.func.value.id == name]
+                why = 'the converter is not created once per sentence (directly in the one loop over the sentences)'
+                if len(around) == 1 and not others:
+                    sentence_loop = around[0]
+                    why = 'no tree is sent through converter.process in a loop nested in the sentence loop'
+                    if calls and all(len(loops_around(c)) == 2 and loops_around(c)[1] is sentence_loop for c in calls):
+                        ok, why = True, 'one converter per sentence; the trees of its n-best list go through converter.process in a loop nested in the sentence loop'
     return [dict(name=f'{prop}/{JREL}::to_jigg_xml/call-site[converter]', kind='call-site', verdict='discharged' if ok else 'failed', backend='ast', ms=0, inputs=None, detail=why,
                  witness=dict(function=f'{JREL}::to_jigg_xml'))]
 
@@ -1358,6 +1425,11 @@ def _append_value(I, v):
 
 
 def _symintlist_getattr(self, I, name, node):
+    if name == 'count':
+        def count(I, args, kwargs, node):
+            v = I.ex(args[0])
+            return FilteredCount(self, lambda idx: z3.Select(self.arr, idx) == v).length(I, node)
+        return _Method(count)
     if name == 'append':
         def app(I, args, kwargs, node):
             self.arr = z3.Store(self.arr, self.n, _append_value(I, args[0]))
@@ -1385,8 +1457,9 @@ class LeavesRec(Contract):
     def closure_env(self, I, f):
         m = I.load_module('depccg.tree')
         env = Env(m.env)
-        env.set('rec', f)
+        env.set(f.node.name, f)
         self._env = env
+        self._list = the_one(closure_names(I, f)[0], 'the list of leaves', self.name)
         return env
 
     def cases(self, I):
@@ -1394,7 +1467,7 @@ class LeavesRec(Contract):
             t = z3.Const('node', T)
             arr, n = z3.Const('result0', z3.ArraySort(I_, I_)), z3.Int('len0')
             lst = SymIntList(arr, n)
-            self._env.set('result', lst)
+            self._env.set(self._list, lst)
             self._pre = (arr, n, t, lst)
             unfold_leaf_tag(I, t)
             return [SymTree(t)], {}, [n >= 0], None
@@ -1409,12 +1482,13 @@ class LeavesRec(Contract):
         if len(args) != 1 or not isinstance(args[0], SymTree):
             raise CheckerError('rec called with something that is not a tree view')
         t = args[0].e
-        lst = f.env.lookup('result')
+        name = the_one(closure_names(I, f)[0], 'the list of leaves', self.name)
+        lst = f.env.lookup(name)
         if isinstance(lst, list):
             if lst:
                 raise CheckerError('rec called with a non-empty concrete list')
             lst = SymIntList(z3.K(I_, z3.IntVal(0)), z3.IntVal(0))
-            f.env.set('result', lst)
+            f.env.set(name, lst)
         arr0, n0 = lst.arr, lst.n
         arr1 = I.fresh('result', z3.ArraySort(I_, I_))
         lst.arr, lst.n = arr1, n0 + nleaves(t)
